@@ -13,6 +13,7 @@ RULE = ("Hypothesis-generated configurations: every irrigation strategy (net irr
         "one per season (summary row). Non-trivial configuration: >=2 summary rows, or a binding seasonal cap, or pre-irrigation "
         "> 0, or a crop that died; distinct = configuration hash.")
 ASSUMPTIONS = [
+    "a run whose initial profile lies above saturation or below air-dry in some compartment (possible when depth points of one layer are extended into a layer with other hydraulic properties) is outside the domain of valid configurations: counted under the label start_outside_airdry_saturation, not evaluated",
     "WP, WPy, fCO2, YldWC, crop type are read from the model's per-season crop object; ET0 from the harness's own weather copy",
     "biomass gain is compared exactly (1e-9 relative) when WPy = 100 (or the crop is a leafy crop) and bounded by [WPy/100, 1] x WP*fCO2*Tr/ET0 otherwise",
     "harvest event of a season = first in-season day on which the state reports maturity or death, or whose next date is the model's latest harvest date",
@@ -38,7 +39,7 @@ def rel(a, b, tol):
 def evaluate(cfg):
     tr, res = observe(cfg)
     res.sample = base_sample(cfg, tr)
-    if tr.n == 0:
+    if tr.n == 0 or not tr.start_ok:
         return res
     idx, n = rows(tr)
     if n == 0:
